@@ -66,7 +66,12 @@ Inductive case :=
    requests the upstream received, the body bytes the client received, whether the body ended properly
    (no read error), whether the upstream received every byte the client sent *)
 | CBody (kind : N) (limit : Z) (cl : bool) (x : exchange)
-        (impl_status head elapsed hits : Z) (body : str) (complete req_whole : bool).
+        (impl_status head elapsed hits : Z) (body : str) (complete req_whole : bool)
+(* the dial timeout IN TIME, for each kind of target, with the transports built from DialTimeout = [limit]
+   (ms) and the upstream [c]: reachable (Connects 0: a loopback listener) or Unreachable (a loopback
+   socket whose accept queue is full, so that the kernel drops further SYNs: the connect is neither
+   accepted nor refused).  impl = status seen by the client and elapsed ms *)
+| CDialT (kind : N) (limit : Z) (c : reach) (ust : Z) (impl_status elapsed : Z).
 
 Definition built_from (s : limits) (impl : option transport) : bool :=
   match impl with
@@ -134,4 +139,19 @@ Definition check_case (c : case) : N :=
                        then (st =? x_status x) && beq body (concat (map snd (x_chunks x))) && complete && req_whole
                        else true in
       verdict same spec None true
+  | CDialT _ limit c ust st elapsed =>
+      match dial_at dial_attempts_of_proxy limit c ust with
+      | Some (mst, mt) =>
+          (* a connect that times out is not answered later than "within that time" allows: for the limits
+             of this class that is less than a second attempt would take *)
+          let lateness := match c with Unreachable => within_allowance (Z.max 0 limit) | Connects _ => late end in
+          let same := (st =? mst) && (mt - early <=? elapsed) && (elapsed <=? mt + lateness) in
+          (* spec side from the upstream itself, not from [dial_at] *)
+          let is_late := (limit <? 0) || ((0 <? limit) && match c with Connects t => limit + early <=? t | Unreachable => true end) in
+          let in_time := match c with Connects t => (limit =? 0) || ((0 <? limit) && (t + early <=? limit)) | Unreachable => false end in
+          let spec := if is_late then (st =? 504) && (elapsed <=? Z.max 0 limit + within_allowance (Z.max 0 limit))
+                      else if in_time then st =? ust else true in
+          verdict same spec None true
+      | None => 3%N (* no dial timeout and an unreachable upstream: the model gives no answer; not generated *)
+      end
   end.
